@@ -57,9 +57,8 @@ theorem spec_eval_items (stack out : List Bytes) (hok : okL stack)
     simp only at h
     split_ifs at h
     cases h
-    have hwk : Walkable cfg.script := walkable_of_walk _ _ (walk_of_loop chk cfg _ _ _ _ _ hs)
     obtain ⟨pc', hr⟩ := reach_of_loop chk cfg stack cfg.script.length 0 _ st' Reach.init (by simpa using hs)
-    exact (reach_inv chk cfg stack hok hwk pc' st' hr).1.1
+    exact (reach_items chk cfg stack hok pc' st' hr).1
 
 /-- the three base-version VMs of `check_solution` agree with `EvalScript`, with no hypothesis -/
 theorem verifyAgree_full (hchk : ChkWF chk) (c : SolCtx) (flags : Nat) : VerifyAgree chk c flags where
